@@ -23,6 +23,10 @@
 (*   [c |-> "Delta", terms]              terms = << <<name, point, ld>> >> *)
 (*   [c |-> "Fin", op, args]             einsum / stack / cat on outputs   *)
 (*   [c |-> "Tup", args]                                                   *)
+(*   [c |-> "Gauss", ins, rank, S, w]    Gaussian -1/2 ||x S - w||^2: ins =*)
+(*        << <<name, dom>> >> (bounded-integer batch inputs and real       *)
+(*        inputs, in order); S row-major over batch.., dim, rank; w over   *)
+(*        batch.., rank; x = the real inputs flattened and concatenated    *)
 (***************************************************************************)
 EXTENDS Values
 
@@ -156,6 +160,7 @@ TI(t) ==
   CASE t.c = "Var" -> << <<t.name, t.dom>> >>
     [] t.c = "Num" -> <<>>
     [] t.c = "Ten" -> TenInputs(t)
+    [] t.c = "Gauss" -> t.ins
     [] t.c = "Un" -> t.arg.ti
     [] t.c = "Bin" -> Merge(t.l.ti, t.r.ti)
     [] t.c = "Red" -> FilterPairs(t.arg.ti, Names(t.vars))
@@ -198,6 +203,7 @@ TO(t) ==
   CASE t.c = "Var" -> t.dom
     [] t.c = "Num" -> Dom(t.dt, <<>>)
     [] t.c = "Ten" -> Dom(t.dt, t.sh)
+    [] t.c = "Gauss" -> RealD
     [] t.c = "Un" -> OutDom1(t.op, t.arg.to)
     [] t.c = "Bin" -> OutDom2(t.op, t.l.to, t.r.to)
     [] t.c = "Red" -> t.arg.to
@@ -219,7 +225,7 @@ Mk(t) == [ti |-> TI(t), to |-> TO(t)] @@ t
 
 RECURSIVE Ann(_)
 Ann(t) ==
-  CASE t.c \in {"Var", "Num", "Ten", "Slice"} -> Mk(t)
+  CASE t.c \in {"Var", "Num", "Ten", "Slice", "Gauss"} -> Mk(t)
     [] t.c = "Un" -> Mk([c |-> "Un", op |-> t.op, arg |-> Ann(t.arg)])
     [] t.c = "Bin" -> Mk([c |-> "Bin", op |-> t.op, l |-> Ann(t.l), r |-> Ann(t.r)])
     [] t.c = "Red" -> Mk([c |-> "Red", op |-> t.op, arg |-> Ann(t.arg), vars |-> t.vars])
@@ -255,6 +261,7 @@ Strip(t) ==
     [] t.c = "Ten" -> [c |-> "Ten", ins |-> t.ins, dt |-> t.dt, sh |-> t.sh, data |-> t.data]
     [] t.c = "Slice" -> [c |-> "Slice", name |-> t.name, start |-> t.start, stop |-> t.stop,
                          step |-> t.step, dt |-> t.dt]
+    [] t.c = "Gauss" -> [c |-> "Gauss", ins |-> t.ins, rank |-> t.rank, S |-> t.S, w |-> t.w]
     [] t.c = "Un" -> [c |-> "Un", op |-> t.op, arg |-> Strip(t.arg)]
     [] t.c = "Bin" -> [c |-> "Bin", op |-> t.op, l |-> Strip(t.l), r |-> Strip(t.r)]
     [] t.c = "Red" -> [c |-> "Red", op |-> t.op, arg |-> Strip(t.arg), vars |-> t.vars]
@@ -351,6 +358,24 @@ EvalTen(t, env) ==
      ELSE [sh |-> t.sh, v |-> [j \in 1..ev |-> t.data[base + j]]]
 
 \* reduce `arg` (annotated, or the internal ConBody node with a ti field) with op over vars
+\* Gaussian log-density  -1/2 sum_r ( sum_d x_d S[b][d][r] - w[b][r] )^2
+RECURSIVE ConcatAll(_)
+ConcatAll(ss) == IF ss = <<>> THEN <<>> ELSE Head(ss) \o ConcatAll(Tail(ss))
+
+EvalGauss(t, env) ==
+  LET ints == SelectSeq(t.ins, LAMBDA q : IsBintD(q[2]))
+      reals == SelectSeq(t.ins, LAMBDA q : ~IsBintD(q[2]))
+      bsizes == [k \in 1..Len(ints) |-> ints[k][2].dt]
+      bidx == [k \in 1..Len(ints) |-> EnvInt(env, ints[k][1])]
+      b == Flat(bidx, bsizes)
+      x == ConcatAll([k \in 1..Len(reals) |-> env[reals[k][1]].v])
+      dim == Len(x)
+      rk == t.rank
+      resid(r) == Sub(FoldOpU("add", [d \in 1..dim |-> Mul(x[d], t.S[(b * dim + (d - 1)) * rk + r])]),
+                      t.w[b * rk + r])
+      sq == FoldOpU("add", [r \in 1..rk |-> Mul(resid(r), resid(r))])
+  IN Scalar(Mul(Q(-1, 2), sq))
+
 EvalRed(op, arg, vars, env) ==
   LET ai == arg.ti
       pv == FilterPairs(ai, Names(ai) \ Names(vars))          \* reduced and present, arg order
@@ -373,6 +398,7 @@ Eval(t, env) ==
   CASE t.c = "Var" -> env[t.name]
     [] t.c = "Num" -> Scalar(t.v)
     [] t.c = "Ten" -> EvalTen(t, env)
+    [] t.c = "Gauss" -> EvalGauss(t, env)
     [] t.c = "Un" -> ApplyUn(t.op, Eval(t.arg, env))
     [] t.c = "Bin" -> ApplyBin(t.op, Eval(t.l, env), Eval(t.r, env))
     [] t.c = "Red" -> EvalRed(t.op, t.arg, t.vars, env)
